@@ -9,7 +9,6 @@ package main
 //   C09.sequence         one allowerContext fed a sequence (overlay hook VerifCheckSequence)
 //                        AND plain one-shot Allowed on the same (provider, event) pairs
 //   C09.invariance       Allowed repeated / permuted supply order / un-needed state added / removed
-//   C09.resolve          ResolveConflictsNew end to end against per-event one-shot Allowed
 
 import (
 	"crypto/ed25519"
@@ -870,10 +869,10 @@ func c09MemberContent(c *Ctx, mv, tv, vv, sender string, variantKeys bool) strin
 	if c.Rng.Intn(3) == 0 {
 		parts = append(parts, `"displayname":"d"`)
 	}
-	if c.Rng.Intn(12) == 0 {
+	switch c.Rng.Intn(24) { // at most one mxid_mapping member: duplicate members are outside the domain
+	case 0, 1:
 		parts = append(parts, `"mxid_mapping":{"user_room_key":"k","user_id":"@u:x"}`)
-	}
-	if c.Rng.Intn(20) == 0 {
+	case 2:
 		parts = append(parts, `"mxid_mapping":"bad"`)
 	}
 	c.Rng.Shuffle(len(parts), func(a, b int) { parts[a], parts[b] = parts[b], parts[a] })
